@@ -4,7 +4,8 @@ MC     mc/MC_Phase.tla   the specification spec/Phase.tla on a bounded family (N
                          uniqueness, group laws, classification, LimitDenImpl = LimitDenDecl)
 TRACE  engine `phase` (harness/src/eng_phase.rs) -> mc/Trace_Phase.tla
        exh   every n/d of a box: new (both sign conventions), preds, neg, cmp, integer multiples,
-             limit_denominator for every bound, sampled add/sub
+             limit_denominator for every bound, sampled add/sub; Div<i64>, normalize(), Display, and per sampled partner
+             Mul<Phase> / Div<Phase>, each through the operator and its assign form, preds on every result
        rand  seeded histories on a 4-register machine + f64 round trips + the 2^40 batch (harness-side)
 At most 8 TLC workers / 8 shards at a time."""
 import glob, json, os
@@ -24,7 +25,9 @@ META = dict(
          "classification invariance and LimitDenImpl = LimitDenDecl over a box of raw pairs n/d, second and third operands, multipliers "
          "and bounds (MC_Phase). Every result of the real Phase::new / From<(i64,i64)> / From<i64> / + / += / - / -= / neg / * i64 / *= / "
          "limit_denominator / is_* / == on an exhaustive box and on seeded register-machine histories is validated by TLC against Norm of "
-         "the exact rational result and the declarative best-approximation predicate.",
+         "the exact rational result and the declarative best-approximation predicate. Mul<Phase>, Div<Phase>, Div<i64> and *= /= (which "
+         "act on the stored representatives, not on classes) and normalize() on a value are run on the same inputs and judged for what "
+         "the property says about every stored phase: canonical result, operator = assign form, class predicates of the result.",
     note="TLC integers are 32 bit: operands in traces stay below 2^15; operands up to 2^40 are run but judged by the harness only (range, "
          "reducedness, congruence modulo 2 in i128) and operands near the 64-bit limit are not covered; the f64 round trip is a harness-side "
          "1e-12 comparison (floats are outside TLA+); Phase::new on Ratio::new_raw values (unreduced / negative denominator, which nothing in "
@@ -89,7 +92,11 @@ def plan(prop, tier, seed, t0):
         cov = {"python_fraction_crosscheck": {"limit_events": checked, "disagree_with_python": mismatch,
                                               "rejected_by_tlc": stats.get("limit_bad", 0)},
                "uncovered": ["operands near the 64-bit limit (TLC integers are 32 bit; 2^40 batch judged by the harness only)",
-                             "Mul<Phase>, Div: not part of the property (not well defined modulo 2)"]}
+                             "Mul<Phase>, Div<Phase>, Div<i64>: not well defined modulo 2, so WHICH class results is not part of the "
+                             "property (compared with the product / quotient of the representatives as L1 only); judged: canonical "
+                             "result, operator = assign form, classification of the result; division by the zero phase / by 0 panics "
+                             "in num::Ratio and is only counted (trace_stats.div_by_zero*)",
+                             "Display for Phase: executed, compared with num::Ratio's text as L1 only (no format is promised)"]}
         if mismatch != stats.get("limit_bad", 0):
             raise ToolError(f"limit_denominator: {mismatch} logged results differ from CPython's Fraction.limit_denominator but TLC's "
                             f"declarative predicate rejected {stats.get('limit_bad', 0)}: the specification's tie rule is not Python's")
@@ -99,6 +106,7 @@ def plan(prop, tier, seed, t0):
                     "MC: every raw pair n/d of the box x {sign conventions, +2k, every multiplier, every bound, every second operand, "
                     "sampled third operands} on the specification; TRACE: one execution = a block of 16 enumerated inputs with all unary "
                     "operations, all bounds and sampled partners, or one seeded history of ~30 operations on 4 phase registers; every "
-                    "logged result is decided in TLC by out = Norm(exact rational result), Canonical(out), IsBestApprox, class predicates; "
+                    "logged result is decided in TLC by out = Norm(exact rational result), Canonical(out), IsBestApprox, class predicates "
+                    "(Mul<Phase> / Div<Phase> / Div<i64>: Canonical(out) and out = the assign form's result); "
                     "non-trivial = results that needed wrapping, approximations with d > m, definite classifications, equal-class comparisons",
                     extra_cov_fn=extra)
